@@ -78,6 +78,7 @@ def workdir():
 
 
 def make(case):
+    snxgen.set_names(case.get('names'))
     m = snxgen.model(case['nstn'], case['soln'], case['vel'], case.get('blockdiag', False), case.get('order', 'station'),
                      dup=case.get('dup', 0), cancel=bool(case.get('cancel')))
     if case.get('ctime'):
@@ -259,6 +260,14 @@ def gen_remove(tier, seed):
         subsets = [list(s) for r in range(0, cfg['nstn']) for s in itertools.combinations(names, r)]
         for i in range(0, len(subsets), 64):
             yield dict(cfg, subsets=subsets[i:i + 64])
+    # site codes that also occur as substrings of block headers and comment lines
+    for cfg in configs(tier):
+        if cfg['nstn'] in (2, 3, 5):
+            snxgen.set_names('keywords')
+            names = snxgen.codes(cfg['nstn'])
+            snxgen.set_names(None)
+            subsets = [list(s) for r in range(0, cfg['nstn']) for s in itertools.combinations(names, r)]
+            yield dict(cfg, subsets=subsets[:64], names='keywords')
     # sites with two solutions (a discontinuity: solution numbers n and n + 1 under one site code): one SITE/ID line, two
     # SOLUTION/EPOCHS lines and two parameter groups per such site
     for cfg in configs(tier):
@@ -321,6 +330,9 @@ def gen_other(tier, seed):
         yield dict(cfg, op='velocity') if cfg['vel'] else dict(cfg, op='zeros', blockdiag=True)
         yield dict(cfg, op='zeros', blockdiag=False)
         yield dict(cfg, op='readers')
+        if cfg['nstn'] in (3, 5):
+            yield dict(cfg, op='velocity' if cfg['vel'] else 'zeros', names='keywords', blockdiag=not cfg['vel'])
+            yield dict(cfg, op='readers', names='keywords')
         if cfg['nstn'] in (2, 4):
             # an input file whose creation time reads exactly like its data start / data end epoch: only the creation time changes
             for ct in ('20:100:00000', '20:093:00000'):
